@@ -192,9 +192,60 @@ def _check_group(case, g, group, graph, inst, ctx: Ctx):
                    group="resolve")
 
 
+def check_repeating_output(case, ctx: Ctx):
+    """A bare :output reference to a repeating producer is the contents of its most recent stdout stream
+    (streams/<n>.stdout with the numerically highest n): "that reference's own value" after n+1 executions."""
+    from ..gen import pkg
+    doc = {"components": [
+        {"name": "Monitor", "stage": 0, "command": {"executable": "echo", "arguments": "hello"},
+         "workflowAttributes": {"repeatInterval": 5}},
+        {"name": "Other", "stage": 0, "command": {"executable": "echo", "arguments": "world"}},
+        {"name": "Consumer", "stage": 1 if case["abs"] else 0,
+         "command": {"executable": "echo", "arguments": "--last %s --dir stage0.Other:ref lit:text" % case["ref"]},
+         "references": ["stage0.Other:ref", case["ref"]]}]}
+    loc = ctx.mkdtemp()
+    try:
+        exp_obj = pkg.experiment_from_flowir(doc, loc, validate=False)
+        inst = exp_obj.instanceDirectory.location
+        streams = os.path.join(inst, "stages", "stage0", "Monitor", "streams")
+        os.makedirs(streams, exist_ok=True)
+        spec = exp_obj.experimentGraph.graph.nodes["stage%d.Consumer" % (1 if case["abs"] else 0)]["componentSpecification"]
+        for count in case["counts"]:
+            for i in range(count):
+                path = os.path.join(streams, "%d.stdout" % i)
+                if not os.path.exists(path):
+                    with open(path, "w") as f:
+                        f.write("run-%d\n" % i)
+            got = spec.resolveArguments()
+            want = "--last run-%d --dir %s lit:text" % (count - 1, os.path.join(inst, "stages", "stage0", "Other"))
+            if got != want:
+                raise Violation("repeating-producer-output-not-latest-stream",
+                                "with %d stdout streams %r resolves to %r, expected %r" % (
+                                    count, case["ref"], got.replace(inst, "$I"), want.replace(inst, "$I")))
+        ctx.rec.label("repeating-output:%s" % ("abs" if case["abs"] else "rel"))
+    finally:
+        shutil.rmtree(loc, ignore_errors=True)
+
+
+def repeating_output_anchors():
+    return [{"ref": "stage0.Monitor:output", "abs": True, "counts": [1, 3, 10, 11, 12, 101]},
+            {"ref": "Monitor:output", "abs": False, "counts": [2, 10, 11, 100, 101]}]
+
+
 def shard(ctx: Ctx):
+    for idx, case in enumerate(repeating_output_anchors()):
+        if idx % ctx.nshards != ctx.shard or ctx.stop:
+            continue
+        ctx.rec.evaluations += 1
+        try:
+            check_repeating_output(case, ctx)
+        except Violation as v:
+            v.case, v.sub = case, "repeating-output"
+            ctx.rec.violations.append(v.to_dict())
+            ctx.stop = True
+            return
     explore(ctx, "resolve", G.cases(), check_resolve, ctx.n(2000, 60000), batch=125)
 
 
 def replay(sub, case, ctx: Ctx):
-    check_resolve(case, ctx)
+    (check_repeating_output if sub == "repeating-output" else check_resolve)(case, ctx)
